@@ -1,3 +1,140 @@
-(* Property C06 (placeholder while the proofs are being written). *)
+(* Property C06: MIR functions are correct C-ABI callees and preserve the caller's machine state.
+   Only the property theorems, each closed by [exact]-style one-liners and followed by Print
+   Assumptions.  Spec: C05/SysV.v.  Implementation models: C05/AbiImpl.v (c) incoming arguments,
+   C06/VaList.v (va_start, va_arg, va_block_arg, interpreter shim decoding), C06/Frame.v
+   (prologue/epilogue arithmetic), all with fixes C05-2, C06-1, C06-2 applied; the pinned commit's
+   versions are refuted at the end.  What is NOT proved here (only exercised by the trampoline
+   run): that func_used_hard_regs contains every register the allocator used, the machine-code
+   stubs, MXCSR/x87 preservation, alloca. *)
 From Coq Require Import List ZArith.
-From MirV Require Import C05.SysV C05.AbiImpl.
+From MirV Require Import C05.SysV C05.AbiImpl C05.AbiProofs C06.VaList C06.VaProofs C06.Frame C06.FrameProofs.
+Import ListNotations.
+Local Open Scope Z_scope.
+
+(* generated code reads every parameter from the location the psABI assigns to it *)
+Theorem incoming_assign_eq_sysv : forall args, wf_args args = true ->
+  fst (in_assign args) = fst (assign args) /\ so (snd (in_assign args)) = so (snd (assign args)).
+Proof. exact incoming_assign_eq. Qed.
+Print Assumptions incoming_assign_eq_sysv.
+
+(* the interpreter's entry shim + interp() decode every fixed parameter from the psABI location,
+   and leave a va_list that is the psABI state after the fixed parameters *)
+Theorem interp_shim_decode_eq_sysv : forall named, wf_args named = true ->
+  interp_decode true named = (fst (assign named), va_of (snd (assign named))).
+Proof. exact interp_decode_eq. Qed.
+Print Assumptions interp_shim_decode_eq_sysv.
+
+(* reading any well-typed variadic tail with va_arg / va_block_arg yields the caller's arguments
+   in order -- after va_start of generated code, and after the interpreter's decoding *)
+Theorem va_arg_sequence_eq_sysv : forall named tail, wf_args (named ++ tail) = true ->
+  fst (va_read_seq true true (gen_va_start named) tail) = skipn (length named) (fst (assign (named ++ tail)))
+  /\ fst (va_read_seq true true (snd (interp_decode true named)) tail)
+     = skipn (length named) (fst (assign (named ++ tail))).
+Proof. intros named tail W; split; [exact (gen_va_tail_eq named tail W)|exact (interp_va_tail_eq named tail W)]. Qed.
+Print Assumptions va_arg_sequence_eq_sysv.
+
+(* the va_list built by va_start is in the canonical psABI range (a C callee such as vprintf can
+   continue from it) *)
+Theorem va_list_canonical : forall named, wf_args named = true ->
+  let va := gen_va_start named in
+  0 <= gp_offset va <= 48 /\ gp_offset va mod 8 = 0
+  /\ 48 <= fp_offset va <= 176 /\ (fp_offset va - 48) mod 16 = 0 /\ 0 <= ov va /\ ov va mod 8 = 0.
+Proof. exact gen_va_start_canonical. Qed.
+Print Assumptions va_list_canonical.
+
+(* results leave in the psABI registers (MIR_RET lowering and interpreter shim) *)
+Theorem callee_result_regs_eq_sysv : forall rs l, result_locs rs = Some l ->
+  ret_results rs = Some l /\ shim_results rs = Some l.
+Proof. intros rs l H. destruct (result_regs_eq rs l H) as [A _]. split; exact A. Qed.
+Print Assumptions callee_result_regs_eq_sysv.
+
+(* after the prologue rsp is 16-byte aligned (both frame layouts), the frame pointer is aligned,
+   the epilogue restores rsp exactly, the varargs save area is where va_start says, and a stack
+   parameter at psABI offset off is read from entry_rsp + 8 + off *)
+Theorem frame_sp_aligned : forall f E, E mod 16 = 8 ->
+  (sp_after f E) mod 16 = 0 /\ (bp_of E) mod 16 = 0 /\ sp_at_ret f E = E
+  /\ (vararg f = true -> reg_save_area_addr f E = va_start_reg_save_area E)
+  /\ (forall off, incoming_stack_addr E off = E + 8 + off).
+Proof. exact sp_aligned. Qed.
+Print Assumptions frame_sp_aligned.
+
+(* the prologue saves exactly the allocatable callee-saved registers the function uses, once each;
+   the epilogue restores the same list; every save slot lies inside the frame, and is disjoint
+   from the other save slots, from every stack slot of a pseudo and from the register save area *)
+Theorem frame_saves_cover : forall f E, 0 <= nslots f -> (vararg f = true -> keep_fp f = true) ->
+  (forall r, In r (map fst (save_list f)) <->
+             (0 <= r <= 15 /\ sysv_callee_saved r = true /\ fixed_reg r = false /\ In r (used f)))
+  /\ NoDup (map fst (save_list f))
+  /\ restore_list f = save_list f
+  /\ (forall m, In m (save_list f) ->
+        sp_after f E <= save_addr f E m /\ save_addr f E m + 8 <= E - 8
+        /\ (forall (ld : bool) (slot : Z), 0 <= slot -> slot + (if ld then 2 else 1) <= nslots f ->
+              disjoint (save_addr f E m) 8 (slot_addr f E ld slot) (if ld then 16 else 8))
+        /\ (vararg f = true -> disjoint (save_addr f E m) 8 (reg_save_area_addr f E) reg_save_area_size))
+  /\ (forall m1 m2, In m1 (save_list f) -> In m2 (save_list f) -> fst m1 <> fst m2 ->
+        disjoint (save_addr f E m1) 8 (save_addr f E m2) 8).
+Proof.
+  intros f E Hn Hv. destruct (saves_cover f) as (A & B & C).
+  split; [exact A|]. split; [exact B|]. split; [exact C|]. split.
+  - intros m Hm. exact (saves_placement f E m Hn Hv Hm).
+  - intros m1 m2. exact (saves_distinct f E m1 m2).
+Qed.
+Print Assumptions frame_saves_cover.
+
+(* stack slots of pseudos and the varargs register save area lie inside the frame, below the
+   saved frame pointer / return address, and do not overlap *)
+Theorem frame_slots_sound : forall f E (ld : bool) slot, 0 <= nslots f -> (vararg f = true -> keep_fp f = true) ->
+  0 <= slot -> slot + (if ld then 2 else 1) <= nslots f ->
+  sp_after f E <= slot_addr f E ld slot /\ slot_addr f E ld slot + (if ld then 16 else 8) <= E - 8
+  /\ (vararg f = true ->
+        disjoint (slot_addr f E ld slot) (if ld then 16 else 8) (reg_save_area_addr f E) reg_save_area_size
+        /\ sp_after f E <= reg_save_area_addr f E /\ reg_save_area_addr f E + reg_save_area_size = E - 8).
+Proof.
+  intros f E ld slot Hn Hv H0 H1. destruct (slots_placement f E ld slot Hn Hv H0 H1) as (A & B & C).
+  split; [exact A|]. split; [exact B|]. intros V. split; [exact (C V)|].
+  destruct (reg_save_area_placement f E Hn V) as (D & F & _). split; [exact D|exact F].
+Qed.
+Print Assumptions frame_slots_sound.
+
+(* MIR's call-used / callee-saved split agrees with the psABI: every psABI callee-saved register is
+   either saved on use (rbx, r12-r15) or rsp/rbp, which the allocator never hands out and the
+   prologue/epilogue maintain; nothing else is treated as preserved *)
+Theorem callee_saved_classification_eq_sysv : forall r, 0 <= r <= 15 ->
+  (sysv_callee_saved r = true -> call_used r = false \/ r = SP \/ r = BP)
+  /\ (call_used r = false -> sysv_callee_saved r = true /\ fixed_reg r = false)
+  /\ (fixed_reg r = true -> call_used r = true).
+Proof. exact classification. Qed.
+Print Assumptions callee_saved_classification_eq_sysv.
+
+(* The pinned commit (before fixes C05-2, C06-1, C06-2) does NOT satisfy these: witnesses replayed
+   by ./check C06 on the real code. *)
+Theorem incoming_ld_head_refuted :
+  exists args, wf_args args = true /\ fst (in_assign_head args) <> fst (assign args).
+Proof. eexists. destruct ld_align_head_refuted as (A & _ & _ & B). split; [exact A|exact B]. Qed.
+Print Assumptions incoming_ld_head_refuted.
+
+Theorem va_start_head_refuted_thm :
+  exists named, wf_args named = true /\ ov (gen_va_start_head named) <> ov (va_of (snd (assign named))).
+Proof. eexists. exact va_start_head_refuted. Qed.
+Print Assumptions va_start_head_refuted_thm.
+
+Theorem va_block_arg_head_refuted_thm :
+  exists named tail, wf_args (named ++ tail) = true
+  /\ fst (va_read_seq false false (va_of (snd (assign named))) tail)
+     <> skipn (length named) (fst (assign (named ++ tail))).
+Proof. eexists. eexists. exact va_block_arg_head_refuted. Qed.
+Print Assumptions va_block_arg_head_refuted_thm.
+
+Theorem va_block2_bounds_head_refuted_thm :
+  exists named tail, wf_args (named ++ tail) = true
+  /\ fst (va_read_seq false false (va_of (snd (assign named))) tail)
+     <> skipn (length named) (fst (assign (named ++ tail))).
+Proof. eexists. eexists. exact va_block2_head_refuted. Qed.
+Print Assumptions va_block2_bounds_head_refuted_thm.
+
+Theorem va_arg_ld_head_refuted_thm :
+  exists named tail, wf_args (named ++ tail) = true
+  /\ fst (va_read_seq false true (va_of (snd (assign named))) tail)
+     <> skipn (length named) (fst (assign (named ++ tail))).
+Proof. eexists. eexists. exact va_ld_head_refuted. Qed.
+Print Assumptions va_arg_ld_head_refuted_thm.
